@@ -233,7 +233,9 @@ class FakeTcpSocket(object):
         return self.net.write(bytes(data))
 
     def recv(self, n):
-        if n <= 0:
+        if n < 0:
+            raise ValueError('negative buffersize in recv')      # what a real socket does
+        if n == 0:
             return b''
         return self.net.stream_read(n, False)
 
@@ -260,6 +262,8 @@ class FakeUdpSocket(object):
         return self.net.write(bytes(data))
 
     def recvfrom(self, n):
+        if n < 0:
+            raise ValueError('negative buffersize in recvfrom')
         if self.timeout is None:
             raise Hang()
         return (self.net.dgram_read(n), ('127.0.0.1', 502))
